@@ -47,6 +47,11 @@ def program(rng, pid, profile=None):
         return obj(rng.choice(pool))
 
     def tree(depth=0):
+        if depth == 0 and rng.random() < 0.15:
+            # a bare scheduler (possibly still empty) or sequence as the whole argument
+            pool = [i for i in made if kinds[i - 1] in ("sched", "seq")]
+            if pool:
+                return obj(rng.choice(pool))
         if depth >= 3 or rng.random() < 0.55:
             return leaf()
         kind = rng.choice(["list", "tuple", "set"])
@@ -106,7 +111,8 @@ def program(rng, pid, profile=None):
                 steps.append(st("newseq", i, args=flat_args(), req=tree() if rng.random() < 0.5 else NONE,
                                 sched=sch))
             else:
-                steps.append(st("newsched", i, args=flat_args(3), req=tree() if rng.random() < 0.4 else NONE,
+                steps.append(st("newsched", i, args=flat_args(3) if rng.random() < 0.6 else [],
+                                req=tree() if rng.random() < 0.4 else NONE,
                                 sched=sch if k == "sched" else 0))
             made.append(i)
         elif what == "requires":
